@@ -1,5 +1,7 @@
 """C07 / F1: non-canonical VLQ prefixes decode; equal content then gets a different id."""
-import _common
+import os, sys
+sys.path.insert(0, os.path.dirname(os.path.dirname(os.path.abspath(__file__))))
+from native import _common
 from io import BytesIO
 from skepticoin.serialization import stream_deserialize_vlq, stream_serialize_vlq
 from skepticoin.datatypes import Transaction, Block
